@@ -1,9 +1,9 @@
 #!/bin/bash
-# stop background check / seed evaluation processes (patterns live in this file so that the calling shell is not matched)
-for pat in "seed_queue.sh" "seed_eval.py" "vtool check" "/verif/.build/.*-prop C"; do
+# stop background check / seed evaluation / thorough processes (patterns live in this file so that the calling shell is not matched)
+for pat in "seed_queue.sh" "seed_eval.py" "seed_confirm.py" "tools/thorough.sh" "tools/sweep.sh" "vtool check" "/verif/.build/.*-prop C"; do
   for p in $(pgrep -f "$pat"); do
     [ "$p" != "$$" ] && kill -9 "$p" 2>/dev/null
   done
 done
 sleep 1
-pgrep -fl "seed_queue|seed_eval|vtool check" | grep -v killruns || true
+pgrep -fl "seed_queue|seed_eval|seed_confirm|thorough.sh|sweep.sh|vtool check|-prop C" | grep -v killruns || true
